@@ -37,6 +37,7 @@ def with_probe(d):
 RULES = {
     "add_new": with_probe({"l": LBL}),
     "add_existing": with_probe({"i": st.integers(0, 30)}),
+    "add_removed": with_probe({"i": st.integers(0, 30)}),
     "new_taxon": with_probe({"l": LBL}),
     "new_taxa": with_probe({"ls": st.lists(LBL, max_size=3)}),
     "require": with_probe({"l": LBL, "cs": CS}),
@@ -102,6 +103,7 @@ class Interp(object):
         self.cs = bool(init["cs"])
         self.ns = dendropy.TaxonNamespace(is_case_sensitive=self.cs)
         self.model = []  # [taxon, bit]
+        self.graveyard = []  # taxon objects that were members once and were removed
         self.interesting = False
         self.after_interesting = 0
         self.sig = [self.cs]
@@ -140,6 +142,20 @@ class Interp(object):
                 ns.add_taxon(t)
                 self.V(ns.is_mutable, "immutable_never_grows", "add_taxon succeeded on immutable namespace")
                 self._joined(t)
+            except Imm:
+                self.V(not ns.is_mutable, "unexpected_immutable_error")
+        elif op == "add_removed":
+            # a Taxon object that was a member before joins again: it must get a bit of its own like any newcomer
+            cand = [t for t in self.graveyard if all(t is not m[0] for m in self.model)]
+            if not cand:
+                return
+            t = cand[a["i"] % len(cand)]
+            try:
+                ns.add_taxon(t)
+                self.V(ns.is_mutable, "immutable_never_grows", "add_taxon succeeded on immutable namespace")
+                self._joined(t)
+                ctx.cls("readded_removed_taxon")
+                self.interesting = True
             except Imm:
                 self.V(not ns.is_mutable, "unexpected_immutable_error")
         elif op == "add_existing":
@@ -185,6 +201,7 @@ class Interp(object):
             t = self.model[i][0]
             ns.remove_taxon(t)
             del self.model[i]
+            self.graveyard.append(t)
             self.interesting = True
         elif op == "remove_foreign":
             t = d.Taxon(label=POOL[a["l"]])
@@ -209,6 +226,7 @@ class Interp(object):
                 want = []
             if want:
                 ids = set(id(t) for t in want)
+                self.graveyard.extend(want)
                 self.model = [m for m in self.model if id(m[0]) not in ids]
                 self.interesting = True
         elif op == "delitem":
@@ -216,6 +234,7 @@ class Interp(object):
                 return
             i = a["i"] % len(self.model)
             del ns[i]
+            self.graveyard.append(self.model[i][0])
             del self.model[i]
             self.interesting = True
         elif op == "sort":
@@ -235,6 +254,7 @@ class Interp(object):
             ns.clear()
             if self.model:
                 self.interesting = True
+            self.graveyard.extend(m[0] for m in self.model)
             self.model = []
         elif op == "relabel":
             if not self.model:
@@ -276,6 +296,8 @@ class Interp(object):
             if a["switch"]:
                 self.ns = c
                 self.model = newmodel
+                if deep:
+                    self.graveyard = []
                 self.interesting = True
         else:
             raise runner.HarnessError("unknown op " + op)
@@ -305,6 +327,8 @@ class Interp(object):
             bm = ns.taxon_bitmask(t)
             V(bm > 0 and bm & (bm - 1) == 0, "single_bit", lambda: "mask %s" % bin(bm))
             V(bm == bit, "bit_stable", lambda: "taxon %r had %s now %s" % (t.label, bin(bit), bin(bm)))
+            V(bm == 1 << ns.accession_index(t), "bit_matches_accession_index",
+              lambda: "taxon %r: mask %s but accession index %r" % (t.label, bin(bm), ns.accession_index(t)))
             V(bm not in seen, "bit_unique", lambda: "taxa %r and %r share %s" % (t.label, seen[bm].label, bin(bm)))
             seen[bm] = t
         # subset <-> bitmask
